@@ -731,3 +731,18 @@ def must_execute(ctx, starts, targets, bb):
         if p1 is None and p2 is None:
             return None
     return p
+
+
+def param_index_of_origin(prog, ctx, o):
+    """position (0-based, among the function's declared parameters) of the parameter an origin stands
+    for — directly (sync fn) or as the captured variable of an async fn's body; None otherwise"""
+    if o.kind == "param":
+        return o.key[0] - 1
+    if o.kind == "upvar" and ctx.body.kind == "Closure":
+        fb = prog.body(short_fn(ctx.body.path))
+        if fb is None:
+            return None
+        for n, p, a_ in fb.vdi:
+            if n == o.key[1] and not p.proj and 1 <= p.local <= fb.argc:
+                return p.local - 1
+    return None
